@@ -259,4 +259,79 @@ The code leaves `PID` nil on these items (only the per-type list is passed throu
 def specWorkList (ms : List Member) (t : String) : List Item :=
   (specTypeList (ms.filter (fun m => isWork m.state)) t).map (fun it => { it with pid := none })
 
+/-! ## concurrent reads of the directory
+
+`ClusterServices.MakeMembers` first builds four fresh maps with the pure
+`MakeMembers` and then assigns the four fields one after the other, without a
+lock; readers run on other goroutines.  Modelled: each field assignment and each
+field read is one atomic step (word-sized pointer store / load — an assumption
+about the Go memory model, recorded in the check's config); the steps of the
+updater and of a reader interleave arbitrarily.  That every getter performs
+exactly one field read is a fact about the source, regenerated on every run
+(`Gen/C08Facts.lean`). -/
+
+inductive Ref | members | typeServices | workingServices | services
+  deriving DecidableEq, Repr
+
+def Ref.goName : Ref → String
+  | .members => "members" | .typeServices => "typeServices"
+  | .workingServices => "workingServices" | .services => "services"
+
+/-- `s.<f> = d.<f>` -/
+def Dir.store (cur : Dir) (f : Ref) (d : Dir) : Dir :=
+  match f with
+  | .members => { cur with members := d.members }
+  | .typeServices => { cur with types := d.types }
+  | .workingServices => { cur with working := d.working }
+  | .services => { cur with services := d.services }
+
+/-- what one load of field `f` hands to a reader -/
+def Dir.only (d : Dir) (f : Ref) : Dir := ({} : Dir).store f d
+
+/-- the field assignments of `ClusterServices.MakeMembers`, in source order -/
+def storeOrder : List Ref := [.members, .typeServices, .workingServices, .services]
+
+/-- the shared `ClusterServices` after a sequence of field assignments -/
+def runStores (v0 : Dir) (sts : List (Ref × Dir)) : Dir :=
+  sts.foldl (fun cur st => cur.store st.1 st.2) v0
+
+/-- all field assignments caused by publishing the views `pubs`, in order -/
+def storesOf (pubs : List Dir) : List (Ref × Dir) :=
+  pubs.flatMap (fun d => storeOrder.map (fun f => (f, d)))
+
+inductive Query
+  | serviceList (t : String) | workServiceList (t : String) | workServices | workServiceNames
+  | service (n : String) | members
+  deriving Repr
+
+/-- the Go getter a query stands for -/
+def Query.goName : Query → String
+  | .serviceList _ => "GetServiceList" | .workServiceList _ => "GetWorkServiceList"
+  | .workServices => "GetWorkServices" | .workServiceNames => "GetWorkServiceNames"
+  | .service _ => "GetService" | .members => "GetMembers"
+
+/-- the one field the getter reads -/
+def Query.field : Query → Ref
+  | .serviceList _ => .typeServices | .workServiceList _ => .workingServices
+  | .workServices => .workingServices | .workServiceNames => .workingServices
+  | .service _ => .services | .members => .members
+
+inductive Answer
+  | list (l : Option (List Item)) | items (l : List Item) | names (l : List String)
+  | item (o : Option Item) | members (m : AL Member)
+  deriving Repr
+
+def Query.answer : Query → Dir → Answer
+  | .serviceList t, d => .list (d.getServiceList t)
+  | .workServiceList t, d => .list (d.getWorkServiceList t)
+  | .workServices, d => .items d.getWorkServices
+  | .workServiceNames, d => .names d.getWorkServiceNames
+  | .service n, d => .item (d.getService n)
+  | .members, d => .members d.getMembers
+
+/-- a reader: at the moment the updater has performed `k` of its field assignments
+the getter loads its field once, then computes on what it loaded -/
+def readAt (v0 : Dir) (pubs : List Dir) (k : Nat) (q : Query) : Answer :=
+  q.answer ((runStores v0 ((storesOf pubs).take k)).only q.field)
+
 end Cell2v.Directory
